@@ -6,6 +6,7 @@ package controls
 import (
 	"reflect"
 	"sort"
+	"strings"
 	"unicode/utf8"
 )
 
@@ -37,6 +38,35 @@ func OrdFirstWins(m map[string]*int) []string {
 			seen[v] = true
 			out = append(out, k)
 		}
+	}
+	sort.Strings(out)
+	return out
+}
+
+// OrdBuilderLoop writes the keys into a local strings.Builder in map order: the text depends on the
+// iteration order (violation), although every call in the loop only touches a local accumulator.
+func OrdBuilderLoop(m map[string]int) string {
+	var sb strings.Builder
+	for k := range m {
+		sb.WriteString(k)
+	}
+	return sb.String()
+}
+
+// OrdBuilderCallee renders one key with a local strings.Builder; calling it inside a loop whose results are
+// sorted afterwards is clean: the accumulator never outlives one call (clean twin of OrdBuilderLoop).
+func ordRenderKey(k string) string {
+	var sb strings.Builder
+	sb.WriteString("<")
+	sb.WriteString(k)
+	sb.WriteString(">")
+	return sb.String()
+}
+
+func OrdBuilderCallee(m map[string]int) []string {
+	var out []string
+	for k := range m {
+		out = append(out, ordRenderKey(k))
 	}
 	sort.Strings(out)
 	return out
